@@ -683,6 +683,17 @@ class ExprMixin:
 
     def slice_of(self, base, sl, path, node):
         if sl.step is not None:
+            if isinstance(base, sv.STup) and sl.lower is None and sl.upper is None:
+                st = sv.simp(self.eval(sl.step, path).e)
+                if z3.is_int_value(st):
+                    k = st.as_long()
+                    return sv.STup(base.items[::k])
+                # x[::rev] with rev = -1 if c else 1: case split on the two values
+                k = self.choose(path, [st == -1, st == 1])
+                return sv.STup(base.items[::-1] if k == 0 else base.items)
+            r = self.lib_slice(base, sl, path, node)
+            if r is not None:
+                return r
             raise Unsupported("slice with step", node)
         if isinstance(base, sv.SList):
             lo = self.eval(sl.lower, path).e if sl.lower is not None else z3.IntVal(0)
